@@ -45,6 +45,35 @@ theorem C08_exec_compile_eq_walk (P : Prims) (hP : Frame P) (t : List Desc) (pro
   exact sim_obs h3
 
 
+/-- Stage A (operator-free templates: elements, sequences, fixed and delayed replication, arbitrarily
+    nested).  No scope hypothesis is needed: every operator-free template that compiles is `scopeClosed`. -/
+theorem C08_exec_compile_eq_walk_stageA (P : Prims) (hP : Frame P) (t : List Desc) (prog : List Stmt)
+    (hf : opFreeL t = true) (hc : compile t = .ok prog) (s : St) (hr : s.regs = {}) :
+    obs (exec P prog s) = obs (walkList P t s) :=
+  C08_exec_compile_eq_walk P hP t prog (scopeClosed_of_opFree t hf prog hc) hc s hr
+
+/-- the two loop forms: `Loop(n)` iterates the body `n` times, `Loop(factor)` reads the count the way the
+    walk does (`get_value_for_delayed_replication_factor`, then `range`) -/
+theorem C08_exec_loop (P : Prims) (body : List Stmt) (s : St) :
+    (∀ n, exec P [.loop (.fixed n) body] s = iterN n (exec P body) s) ∧
+    exec P [.loop .factor body] s = (P.factorValue s >>= factorCount >>= fun n => iterN n (exec P body) s) := by
+  constructor
+  · intro n
+    show execList P [.loop (.fixed n) body] s = _
+    rw [execList_single]; rfl
+  · show execList P [.loop .factor body] s = _
+    rw [execList_single]
+    simp only [exec1]
+    cases (P.factorValue s >>= factorCount) <;> rfl
+
+/-- Stage B (stage A + the operators 201-208 and 221, under `scopeClosed`): an instance of the full
+    theorem; no marker operator occurs, so only the replication part of `scopeClosed` matters. -/
+theorem C08_exec_compile_eq_walk_stageB (P : Prims) (hP : Frame P) (t : List Desc) (prog : List Stmt)
+    (_hops : opsWithinL stageBOp t = true) (hs : scopeClosed t = true) (hc : compile t = .ok prog)
+    (s : St) (hr : s.regs = {}) :
+    obs (exec P prog s) = obs (walkList P t s) :=
+  C08_exec_compile_eq_walk P hP t prog hs hc s hr
+
 /-! ### data-section level (`process_template_data` with and without a compiled template) -/
 
 /-- FULL.  Decoding a data section with the compiled template equals decoding it with the template,
@@ -100,5 +129,101 @@ theorem C08_encodeData_reload (T : Tables) (hT : TablesOk T) (ids : List Nat) (t
     (load T (dump prog) >>= fun p => encodeDataC p compressed valss) = encodeData t compressed valss := by
   rw [C08_load_dump_compile T hT ids t hb prog hc]
   exact C08_encodeDataC_eq t prog hs hc compressed valss
+
+
+/-! ### non-vacuity: a concrete template with 201, nested replication, a bitmap and marker operators -/
+namespace C08Ex
+
+def e1 : Elem := { id := 1001, kind := .numeric, nbits := 7, scale := 0, ref := 0 }
+def e2 : Elem := { id := 12001, kind := .numeric, nbits := 12, scale := 1, ref := 0 }
+def eF : Elem := { id := 31001, kind := .numeric, nbits := 8, scale := 0, ref := 0 }
+def eB : Elem := { id := 31031, kind := .codeflag, nbits := 1, scale := 0, ref := 0 }
+def eQ : Elem := { id := 33007, kind := .numeric, nbits := 7, scale := 0, ref := 0 }
+
+def tmpl : List Desc :=
+  [ .op 201130, .elem e2, .op 201000,
+    .fixedRep 101002 [ .delayedRep 101000 (.elem eF) [ .elem e1 ] ],
+    .op 222000, .fixedRep 101003 [ .elem eB ], .fixedRep 101002 [ .elem eQ ],
+    .elem e1,
+    .op 223000, .op 237000, .op 223255, .op 223255 ]
+
+def bits : Bits :=
+  toBits 14 1234 ++ toBits 8 1 ++ toBits 7 5 ++ toBits 8 2 ++ toBits 7 6 ++ toBits 7 7 ++
+  [false, true, false] ++ toBits 7 70 ++ toBits 7 71 ++ toBits 7 9 ++ toBits 8 200 ++ toBits 7 100 ++ [true, true]
+
+def progOf (t : List Desc) : List Stmt := match compile t with | .ok p => p | .error _ => []
+def isOk {α : Type} (x : CM α) : Bool := match x with | .ok _ => true | .error _ => false
+
+theorem compile_progOf (t : List Desc) (h : isOk (compile t) = true) : compile t = .ok (progOf t) := by
+  unfold progOf
+  cases hc : compile t with
+  | error e => rw [hc] at h; cases h
+  | ok p => rfl
+
+example : scopeClosed tmpl = true := by decide +kernel
+example : isOk (compile tmpl) = true := by decide +kernel
+
+def expected : SubsetOut :=
+  { descs := [.plain e2, .plain eF, .plain e1, .plain eF, .plain e1, .plain e1, .oper 222000, .plain eB, .plain eB, .plain eB,
+              .plain eQ, .plain eQ, .plain e1, .oper 223000, .oper 237000, .marker 223255 eF, .marker 223255 e1],
+    vals := [.num 1234 1, .int 1, .int 5, .int 2, .int 6, .int 7, .int 0, .int 0, .int 1, .int 0, .int 70, .int 71, .int 9,
+             .int 0, .int 0, .int 200, .int 100],
+    links := [(10, 3), (11, 5), (15, 3), (16, 5)] }
+
+example : decodeData tmpl false 1 bits = .ok ([expected], [true, true]) := by decide +kernel
+example : decodeDataC (progOf tmpl) false 1 bits = .ok ([expected], [true, true]) := by decide +kernel
+/-- the theorem applied: hypotheses discharged by evaluation -/
+example : decodeDataC (progOf tmpl) false 1 bits = decodeData tmpl false 1 bits :=
+  C08_decodeDataC_eq tmpl _ (by decide +kernel) (compile_progOf tmpl (by decide +kernel)) false 1 bits
+
+/-- encoding the decoded values gives the bits back (without the two unread ones), compiled or not -/
+example : encodeData tmpl false [expected.vals] = .ok ([expected], bits.take 90) := by decide +kernel
+example : encodeDataC (progOf tmpl) false [expected.vals] = .ok ([expected], bits.take 90) := by decide +kernel
+/-- compressed, two identical subsets -/
+example : isOk (encodeData tmpl true [expected.vals, expected.vals]) = true := by decide +kernel
+example : encodeDataC (progOf tmpl) true [expected.vals, expected.vals] = encodeData tmpl true [expected.vals, expected.vals] :=
+  C08_encodeDataC_eq tmpl _ (by decide +kernel) (compile_progOf tmpl (by decide +kernel)) true _
+
+/-- save / load over a five-entry Table B -/
+def T0 : Tables :=
+  { b := fun id => if id = 1001 then some e1 else if id = 12001 then some e2 else if id = 31001 then some eF
+          else if id = 31031 then some eB else if id = 33007 then some eQ else none,
+    d := fun _ => none }
+
+example : TablesOk T0 := by
+  intro id e h
+  simp only [T0] at h
+  split at h
+  · next hid => cases h; subst hid; exact ⟨rfl, by omega⟩
+  split at h
+  · next hid => cases h; subst hid; exact ⟨rfl, by omega⟩
+  split at h
+  · next hid => cases h; subst hid; exact ⟨rfl, by omega⟩
+  split at h
+  · next hid => cases h; subst hid; exact ⟨rfl, by omega⟩
+  split at h
+  · next hid => cases h; subst hid; exact ⟨rfl, by omega⟩
+  · cases h
+
+theorem twfl_tmpl : TWFL T0 tmpl := by
+  simp only [tmpl, TWFL, TWF, elemOk]
+  decide +kernel
+
+/-- the compiled template survives save / load, and the reloaded program decodes like the template -/
+example (p : List Stmt) (hp : compile tmpl = .ok p) : load T0 (dump p) = .ok p :=
+  C08_load_dump T0 p (C08_compile_wf T0 tmpl twfl_tmpl p hp)
+
+example (p : List Stmt) (hp : compile tmpl = .ok p) :
+    (load T0 (dump p) >>= fun q => decodeDataC q false 1 bits) = .ok ([expected], [true, true]) := by
+  rw [C08_load_dump T0 p (C08_compile_wf T0 tmpl twfl_tmpl p hp)]
+  show decodeDataC p false 1 bits = _
+  rw [C08_decodeDataC_eq tmpl p (by decide +kernel) hp]
+  decide +kernel
+
+/-- stage A: an operator-free template with nested replications needs no scope hypothesis -/
+example : opFreeL [.seq 301001 [.fixedRep 102002 [.elem e1, .delayedRep 101000 (.elem eF) [.elem e2]]]] = true := by
+  decide
+
+end C08Ex
 
 end Bufr
